@@ -75,6 +75,7 @@ type VerifOp struct {
 
 type VerifCase struct {
 	Datasets []string  `json:"datasets"`
+	Proxies  []string  `json:"proxies,omitempty"` // proxy datasets (a remote URL that is never contacted): named in scopes, no local data
 	Ops      []VerifOp `json:"ops"`
 }
 
@@ -204,8 +205,16 @@ func VerifC03Run(c VerifCase, dir string) (obs VerifObs) {
 			return
 		}
 	}
+	for _, d := range c.Proxies {
+		cfg := &CreateDatasetConfig{ProxyDatasetConfig: &ProxyDatasetConfig{RemoteURL: "http://127.0.0.1:1/datasets/" + d}}
+		if _, err := h.dsm.CreateDataset(d, cfg); err != nil {
+			obs.Outcome = "setup-error"
+			obs.Detail = err.Error()
+			return
+		}
+	}
 	dsids := make(map[string]uint32) // taken before any delete_ds
-	for _, d := range c.Datasets {
+	for _, d := range append(append([]string{}, c.Datasets...), c.Proxies...) {
 		if ds := h.dsm.GetDataset(d); ds != nil {
 			dsids[d] = ds.InternalID
 		}
@@ -626,6 +635,12 @@ func verifDoOp(h *verifHub, op VerifOp, idx int, times map[int]int64, tokens map
 		}
 	default:
 		if f, ok := VerifExtOps[op.Op]; ok {
+			// the instant the op refers to, resolved here (the extension ops do not see the table of instants)
+			if at, ok := verifAt(op, times); ok {
+				tokens["@at"], tokens["@hasat"] = at, 1
+			} else {
+				tokens["@at"], tokens["@hasat"] = 0, 0
+			}
 			return f(h.store, h.dsm, op, tokens)
 		}
 		oo.Err = "unknown op " + op.Op
